@@ -42,7 +42,9 @@ RULE = ("every multiset (size <= bound) of trees of U(n) (all rooted shapes on n
         "and TreeList; plus histories: a TreeArray / SplitDistribution filled tree by tree (<= 3 trees, n <= 4) with every "
         "pattern of {no read, one read, ordered pair of different reads} from {frequencies, edge-length summaries, node-age "
         "summaries, consensus_tree, summarize_splits_on_tree} after every addition, each read compared with the reference over "
-        "the trees counted so far. A case = one history (tuple of trees, object, read pattern), one (collection, route) frequency table, one (collection, threshold, route) consensus tree, one "
+        "the trees counted so far; plus a stated set of large representatives (ladders, balanced, stars, brooms and locally "
+        "rearranged copies with 12..100 leaves, collections of 2-4 equal-sized trees, both rootings, weights {None,{1,2}}; "
+        "exhaustive over that set only, listed in coverage.bounds.G_large). A case = one history (tuple of trees, object, read pattern), one (collection, route) frequency table, one (collection, threshold, route) consensus tree, one "
         "(collection, target, setting, route) summarisation, one (collection, target, threshold, route) collapse, or one "
         "(collection, score, route) credibility tree; non-trivial = the collection contains at least one non-trivial split")
 ASSUMPTIONS = [
@@ -169,10 +171,16 @@ def weight_vectors(k, alphabets):
     return out
 
 
-def mk_ultra(shape, k):
+def mk_ultra(shape, k, labels=U.LABELS):
     """ultrametric snapshot with integer lengths; internal node age = base*(k+1)+k"""
+    memo = {}
+
     def base(s):
-        return 0 if isinstance(s, int) else 1 + max(base(c) for c in s)
+        if isinstance(s, int):
+            return 0
+        if id(s) not in memo:
+            memo[id(s)] = 1 + max(base(c) for c in s)
+        return memo[id(s)]
 
     def age(s):
         return 0 if isinstance(s, int) else base(s) * (k + 1) + k
@@ -181,23 +189,97 @@ def mk_ultra(shape, k):
         a = age(s)
         L = 1 if pa is None else pa - a
         if isinstance(s, int):
-            return (U.LABELS[s], None, L, ())
+            return (labels[s], None, L, ())
         return (None, None, L, tuple(rec(c, a) for c in s))
     return rec(shape, None)
 
 
-def mk_snap(shape, pattern, k):
+def mk_snap(shape, pattern, k, labels=U.LABELS):
     if pattern == "none":
-        return ref.mk(shape, None)
+        return ref.mk(shape, None, labels)
     if pattern == "unit":
-        return ref.mk(shape, 1)
+        return ref.mk(shape, 1, labels)
     if pattern == "pos":
-        return ref.mk(shape, lambda i, leaf, d: (k + 1) * (1 + i % 3))
+        return ref.mk(shape, lambda i, leaf, d: (k + 1) * (1 + i % 3), labels)
     if pattern == "nd":
-        return ref.mk(shape, lambda i, leaf, d: 0.1 * (i + 1) * (k + 1))
+        return ref.mk(shape, lambda i, leaf, d: 0.1 * (i + 1) * (k + 1), labels)
     if pattern == "ultra":
-        return mk_ultra(shape, k)
+        return mk_ultra(shape, k, labels)
     raise ValueError(pattern)
+
+
+# ---------------------------------------------------------------------------
+# large representatives (a stated finite set; see bounds()["G_large"])
+
+BIG_LABEL_FMT = "t%03d"
+
+
+def big_shape(name, N):
+    """nested tuple over leaves 0..N-1"""
+    def swap(s, a, b):
+        if isinstance(s, int):
+            return b if s == a else (a if s == b else s)
+        return tuple(swap(c, a, b) for c in s)
+
+    def balanced(lo, hi):
+        if hi - lo == 1:
+            return lo
+        mid = (lo + hi + 1) // 2
+        return (balanced(lo, mid), balanced(mid, hi))
+    if name == "ladderL":
+        t = 0
+        for i in range(1, N):
+            t = (t, i)
+        return t
+    if name == "ladderR":
+        t = N - 1
+        for i in range(N - 2, -1, -1):
+            t = (i, t)
+        return t
+    if name == "balanced":
+        return balanced(0, N)
+    if name == "star":
+        return tuple(range(N))
+    if name == "broom":            # ladder of N//3 tips ending in a star of the remaining tips
+        h = N // 3
+        t = tuple(range(h, N))
+        for i in range(h - 1, -1, -1):
+            t = (i, t)
+        return t
+    if name == "ladderL-swap":     # local rearrangement: two tips two rungs apart exchanged
+        return swap(big_shape("ladderL", N), N // 2, N // 2 + 2)
+    if name == "balanced-swap":    # first and last tip exchanged
+        return swap(big_shape("balanced", N), 0, N - 1)
+    if name == "broom-swap":       # last handle tip exchanged with a tip of the star
+        return swap(big_shape("broom", N), N // 3 - 1, N - 1)
+    raise ValueError(name)
+
+
+BIG_SIZES = (12, 16, 17, 32, 33, 40, 64, 65)
+BIG_TUPLES = ([(N, t) for N in BIG_SIZES for t in (("ladderL", "ladderL-swap"), ("ladderL", "ladderR", "balanced"),
+                                                    ("balanced", "balanced-swap", "star", "ladderL-swap"))]
+              + [(60, ("broom", "broom-swap")), (60, ("broom", "broom-swap", "star", "ladderR")),
+                 (100, ("star", "ladderL", "ladderL-swap"))])
+BIG_AGES = [(17, ("ladderL", "ladderL-swap", "balanced")), (40, ("ladderR", "balanced", "balanced-swap")),
+            (65, ("ladderL", "ladderL-swap"))]
+
+
+def big_configs():
+    """every collection of the large-representatives layer"""
+    out = []
+    for N, names in BIG_TUPLES:
+        for rooted in (True, False):
+            for weights in (None, [1, 2, 1, 2][:len(names)]):
+                out.append({"n": N, "rooted": rooted, "ns": "exact", "big": list(names), "weights": weights, "utw": True,
+                            "lens": "pos", "profile": "lean", "labels": "t"})
+    for N, names in BIG_AGES:
+        out.append({"n": N, "rooted": True, "ns": "exact", "big": list(names), "weights": None, "utw": True, "lens": "ultra",
+                    "profile": "ages", "labels": "t"})
+    # use_tree_weights switched off on weighted big trees
+    for N in (33, 65):
+        out.append({"n": N, "rooted": True, "ns": "exact", "big": ["ladderL", "ladderR", "balanced"], "weights": [1, 2, 2], "utw": False,
+                    "lens": "none", "profile": "flagoff", "labels": "t"})
+    return out
 
 
 # ---------------------------------------------------------------------------
@@ -258,18 +340,22 @@ class Coll(object):
         self.rooted = cfg["rooted"]
         self.is_rooted = bool(self.rooted)
         self.nscfg = cfg.get("ns", "exact")
-        self.shapes = tup(cfg["shapes"])
+        if cfg.get("big"):
+            self.shapes = tuple(big_shape(nm, cfg["n"]) for nm in cfg["big"])
+        else:
+            self.shapes = tup(cfg["shapes"])
         self.weights = cfg.get("weights")
         self.utw = cfg.get("utw", True)
         self.lens = cfg.get("lens", "pos")
         self.profile = cfg.get("profile", "std")
-        self.labels = U.LABELS[:self.n]
+        self.labels = [BIG_LABEL_FMT % i for i in range(self.n)] if cfg.get("labels") == "t" else U.LABELS[:self.n]
+        self.big = self.n > 8
         self.allc = frozenset(self.labels)
         self.ns, self.bit = shared_ns if shared_ns is not None else build.make_namespace(self.labels, self.nscfg)
         self.lowlabel = min(self.labels, key=lambda l: self.bit[l])
         self.allmask = sum(1 << self.bit[l] for l in self.labels)
         self.rootmask = self.allmask if self.is_rooted else 0
-        self.sns = [mk_snap(s, self.lens, k) for k, s in enumerate(self.shapes)]
+        self.sns = [mk_snap(s, self.lens, k, self.labels) for k, s in enumerate(self.shapes)]
         self.tsplits = [self.split_keys(sn) for sn in self.sns]
         if self.weights is not None and self.utw:
             w = [float(x) for x in self.weights]
@@ -355,9 +441,18 @@ class Coll(object):
         return sum(1 << self.bit[l] for l in side)
 
     def show(self, s):
+        def side(x):
+            x = sorted(x)
+            if len(x) > 6:
+                return ",".join(x[:3]) + ",..(%d).." % (len(x) - 4) + x[-1]
+            return ",".join(x)
         if self.is_rooted:
-            return "{%s}" % ",".join(sorted(s))
-        return "|".join(sorted(",".join(sorted(x)) for x in s))
+            return "{%s}" % side(s)
+        return "|".join(sorted(side(x) for x in s))
+
+    def tree_text(self, sn, with_len=True):
+        t = ref.to_newick(sn, with_len)
+        return t if len(t) <= 200 else t[:90] + " ...(%d chars)... " % (len(t) - 180) + t[-90:]
 
     @staticmethod
     def ref_ages(sn):
@@ -406,7 +501,7 @@ class Coll(object):
             return self.case_hook(detail)
         c = dict(self.cfg)
         c["kind"] = "coll"
-        c["trees"] = [ref.to_newick(sn) for sn in self.sns]
+        c["trees"] = [self.tree_text(sn) for sn in self.sns]
         c["detail"] = detail
         return c
 
@@ -456,8 +551,19 @@ def check_freqs(c, sd, route, ctx, step=None):
             ok = False
             break
     if ok:
-        hi = 1 << (max(c.bit.values()) + 1)
-        for m in range(hi):
+        nbits = max(c.bit.values()) + 1
+        if nbits <= 8:
+            probes = range(1 << nbits)
+        else:
+            # large trees: a stated set of absent splits - every reference split with one more / one fewer taxon
+            # (lowest, middle, highest bit toggled), and the 'every other taxon' split
+            probes = set()
+            for m0 in want:
+                for b in (1, nbits // 2, nbits - 1):
+                    probes.add((m0 ^ (1 << b)) & c.allmask)
+            probes.add(sum(1 << b for b in range(1, nbits, 2)) & c.allmask)
+            probes = sorted(probes)
+        for m in probes:
             if m in want or m == c.rootmask:
                 continue
             got = sd[m]
@@ -618,12 +724,12 @@ def check_consensus(c, C, t_eff, route, ctx, detail):
             feat = "lacks-qualifying-split" if S - T else "has-split-below-threshold"
             ctx.violation(sig0 + "majority|%s|%s" % (feat, c.tag),
                           "threshold %r: consensus %s has splits %s, splits with f >= t are %s" % (
-                              t_eff, ref.to_newick(sn, False), txt(T), txt(S)), c.case(route=route, **detail))
+                              t_eff, c.tree_text(sn, False), txt(T), txt(S)), c.case(route=route, **detail))
             return False
         return True
     if T - S:
         ctx.violation(sig0 + "greedy|has-split-below-threshold|%s" % c.tag,
-                      "threshold %r: consensus %s contains %s" % (t_eff, ref.to_newick(sn, False), txt(T - S)),
+                      "threshold %r: consensus %s contains %s" % (t_eff, c.tree_text(sn, False), txt(T - S)),
                       c.case(route=route, **detail))
         return False
     for x in S - T:
@@ -631,7 +737,7 @@ def check_consensus(c, C, t_eff, route, ctx, detail):
         if not blockers:
             ctx.violation(sig0 + "greedy|not-maximal|%s" % c.tag,
                           "threshold %r: split %s (f=%r) is compatible with the whole consensus %s but was left out" % (
-                              t_eff, c.show(x), c.freq[x], ref.to_newick(sn, False)), c.case(route=route, **detail))
+                              t_eff, c.show(x), c.freq[x], c.tree_text(sn, False)), c.case(route=route, **detail))
             return False
         if max(c.freq[y] for y in blockers) < c.freq[x]:
             ctx.violation(sig0 + "greedy|not-in-decreasing-frequency-order|%s" % c.tag,
@@ -665,7 +771,7 @@ def check_collapse(c, obj, route, sn_target, t, ctx, detail):
         return False
     _r, sn1 = ref.snapshot(tree)
     if sorted(ref.leaves(sn1), key=str) != sorted(ref.leaves(sn0), key=str):
-        ctx.violation(sig0 + "leaves-changed", "%s -> %s" % (ref.to_newick(sn0), ref.to_newick(sn1)),
+        ctx.violation(sig0 + "leaves-changed", "%s -> %s" % (c.tree_text(sn0), c.tree_text(sn1)),
                       c.case(route=route, t=t, **detail))
         return False
     want = set(s for s in c.nontrivial_of(sn0) if c.freq.get(s, 0.0) >= t_eff)
@@ -674,7 +780,7 @@ def check_collapse(c, obj, route, sn_target, t, ctx, detail):
         feat = "kept-edge-below-threshold" if got - want else "removed-edge-reaching-threshold"
         ctx.violation(sig0 + "%s|%s" % (feat, c.tag),
                       "threshold %r: %s -> %s; internal splits kept %s, splits with f >= t %s" % (
-                          t_eff, ref.to_newick(sn0), ref.to_newick(sn1), sorted(c.show(s) for s in got),
+                          t_eff, c.tree_text(sn0), c.tree_text(sn1), sorted(c.show(s) for s in got),
                           sorted(c.show(s) + "@%.4g" % c.freq.get(s, 0.0) for s in want)),
                       c.case(route=route, t=t, **detail))
         return False
@@ -684,7 +790,7 @@ def check_collapse(c, obj, route, sn_target, t, ctx, detail):
         if bad:
             ctx.violation(sig0 + "root-to-tip-distance|%s" % c.tag,
                           "threshold %r: %s -> %s changes the root-to-tip distance of %s" % (
-                              t_eff, ref.to_newick(sn0), ref.to_newick(sn1), bad), c.case(route=route, t=t, **detail))
+                              t_eff, c.tree_text(sn0), c.tree_text(sn1), bad), c.case(route=route, t=t, **detail))
             return False
     return True
 
@@ -732,7 +838,7 @@ def check_mcc(c, tl, ta, ctx):
             if ref.topology_key(sn, c.is_rooted) not in allowed:
                 ctx.violation("mcc:%s|topology|%s" % (name, c.tag),
                               "returned %s; scores %r are maximal at trees %s" % (
-                                  ref.to_newick(sn, False), scores, [ref.to_newick(c.sns[i], False) for i in arg]),
+                                  c.tree_text(sn, False), scores, [c.tree_text(c.sns[i], False) for i in arg]),
                               c.case(score=score, route=route))
                 continue
             if bool(isr) != c.is_rooted:
@@ -857,16 +963,16 @@ def check_collection(cfg, ctx):
             for i in members:
                 ctx.case(("collapse", c.base_key, t, i), nontrivial=nt)
                 ctx.count("collapses")
-                check_collapse(c, ta, "TreeArray", c.sns[i], t, ctx, {"target": ref.to_newick(c.sns[i])})
+                check_collapse(c, ta, "TreeArray", c.sns[i], t, ctx, {"target": c.tree_text(c.sns[i])})
             for sn in extra:
                 ctx.case(("collapse", c.base_key, t, ref.to_newick(sn, False)), nontrivial=True)
                 ctx.count("collapses")
-                check_collapse(c, ta, "TreeArray", sn, t, ctx, {"target": ref.to_newick(sn)})
+                check_collapse(c, ta, "TreeArray", sn, t, ctx, {"target": c.tree_text(sn)})
             if t in few and ok_sd:
                 for i in members:
                     ctx.case(("collapse-sd", c.base_key, t, i), nontrivial=nt)
                     ctx.count("collapses")
-                    check_collapse(c, sd, "SplitDistribution", c.sns[i], t, ctx, {"target": ref.to_newick(c.sns[i])})
+                    check_collapse(c, sd, "SplitDistribution", c.sns[i], t, ctx, {"target": c.tree_text(c.sns[i])})
     # ---- (3) summaries on targets ---------------------------------------------------------------------
     if P["summ"]:
         if ages:
@@ -901,9 +1007,9 @@ def check_collection(cfg, ctx):
                         obj.summarize_splits_on_tree(tree, **kw2)
                     except Exception as e:
                         ctx.violation("summarize:%s|exception|%s|%s" % (route, type(e).__name__, c.tag3), repr(e),
-                                      c.case(route=route, setting=sname, target=ref.to_newick(sn)))
+                                      c.case(route=route, setting=sname, target=c.tree_text(sn)))
                         continue
-                    check_summary(c, tree, route, sname, kw2, ctx, {"target": ref.to_newick(sn), "target_kind": what})
+                    check_summary(c, tree, route, sname, kw2, ctx, {"target": c.tree_text(sn), "target_kind": what})
         # settings through the consensus routes: TreeArray at the default threshold, TreeList at the lowest one
         # (small collections: both routes at both thresholds)
         if len(settings) > 1 and ok_ta:
@@ -931,10 +1037,11 @@ def check_collection(cfg, ctx):
     if P["mcc"] and ok_ta:
         check_mcc(c, tl, ta, ctx)
     if nt and len(c.shapes) >= 2:
-        ctx.sample({"trees": [ref.to_newick(sn, c.has_lengths) for sn in c.sns], "rooted": c.rooted, "weights": c.weights,
+        ctx.sample({"trees": [c.tree_text(sn, c.has_lengths) for sn in c.sns], "rooted": c.rooted, "weights": c.weights,
                     "use_tree_weights": c.utw, "thresholds": [t if t == "default" else round(t, 6) for t in menu],
-                    "frequencies": dict((c.show(s), round(f, 6)) for s, f in sorted(c.freq.items(), key=lambda kv: c.show(kv[0]))
-                                        if c.is_nontrivial(s)), "profile": c.profile}, 1)
+                    "frequencies": ("%d non-trivial splits" % len(c.nontrivial)) if c.big else
+                    dict((c.show(s), round(f, 6)) for s, f in sorted(c.freq.items(), key=lambda kv: c.show(kv[0])) if c.is_nontrivial(s)),
+                    "profile": c.profile, "large_shapes": c.cfg.get("big"), "leaves": c.n}, 1)
 
 
 # ---------------------------------------------------------------------------
@@ -1208,6 +1315,19 @@ def bounds(tier):
                         "three_trees": "3 ordered triples (n=3: s,s,s and s,t,s; n=4: s,t,s), TreeArray" if q else
                                        "every multiset of 3 of U(3) plus 3 re-orderings, and s,t,s for the 4 representative shapes of U(4), TreeArray",
                         "oracle": "every read after the j-th addition equals the reference computed from the first j trees"},
+        "G_large": {"note": "exhaustive over this stated set only (same in both tiers); same oracles as the small universe",
+                    "labels": "t000..tNNN", "shapes": {"ladderL": "left-leaning ladder", "ladderR": "right-leaning ladder",
+                                                       "balanced": "balanced binary", "star": "star", "broom": "ladder of N/3 tips ending in a star",
+                                                       "ladderL-swap": "ladderL with tips N/2 and N/2+2 exchanged",
+                                                       "balanced-swap": "balanced with first and last tip exchanged",
+                                                       "broom-swap": "broom with the last handle tip and a star tip exchanged"},
+                    "collections": [[N, list(t)] for N, t in BIG_TUPLES], "x": "rooting {rooted, unrooted} x weights {None, 1,2,1,2..}",
+                    "profile": "lean: frequency of every reference split (+ stated absent probes), TreeArray consensus at every threshold of "
+                               "the menu, other routes at default/lowest, summaries on every member, collapse of every member at every "
+                               "threshold, both credibility scores via TreeArray and TreeList",
+                    "node_ages_collections": [[N, list(t)] for N, t in BIG_AGES],
+                    "use_tree_weights_off": [[33, ["ladderL", "ladderR", "balanced"], [1, 2, 2]], [65, ["ladderL", "ladderR", "balanced"], [1, 2, 2]]],
+                    "absent_split_probes": "each reference split with bit 1, N/2 or N-1 toggled; the every-other-taxon split"},
         "profiles": {"full": "3 consensus routes x every threshold; 7 summarisation settings; every tree of U(n) as target",
                      "std": "as full, members as targets", "lean": "TreeArray.consensus_tree x every threshold, other routes at "
                      "default and lowest threshold; default setting", "freq": "frequency tables only",
@@ -1287,6 +1407,9 @@ def chunks(tier):
             for lo, hi in _slices(total, 60 if n < 5 else 100):
                 out.append({"layer": "C", "n": n, "k": [k], "rooted": True, "pool": pl, "lo": lo, "hi": hi})
     out.extend(history_chunks(tier))
+    # large representatives: the same stated set in both tiers, one collection per chunk
+    for i in range(len(big_configs())):
+        out.append({"layer": "G", "index": i})
     return out
 
 
@@ -1307,6 +1430,10 @@ def run_chunk(chunk, ctx):
         return None
     if layer in ("H", "H1"):
         run_history_chunk(chunk, ctx)
+        return None
+    if layer == "G":
+        ctx.count("collections_large_representatives")
+        check_collection(big_configs()[chunk["index"]], ctx)
         return None
     n = chunk["n"]
     shapes = pool(n, chunk["pool"])
@@ -1350,7 +1477,7 @@ def replay(case, ctx):
         h = History(case["n"], case["rooted"], case["shapes"], case["ages"], case["route"])
         run_history(h, tuple(tuple(r) for r in case["reads"]), ctx)
     elif k == "coll":
-        cfg = dict((key, case[key]) for key in ("n", "rooted", "ns", "shapes", "weights", "utw", "lens", "profile") if key in case)
+        cfg = dict((key, case[key]) for key in ("n", "rooted", "ns", "shapes", "weights", "utw", "lens", "profile", "big", "labels") if key in case)
         check_collection(cfg, ctx)
     else:
         raise ValueError("unknown case kind %r" % k)
